@@ -11,6 +11,7 @@ import MagpyVerif.Lemmas.KernReal
 import MagpyVerif.Lemmas.KernelLiterals
 import MagpyVerif.Lemmas.KernAlgebra
 import MagpyVerif.Lemmas.KernCylinder
+import MagpyVerif.Lemmas.CylSegInside
 import MagpyVerif.Gen.Const
 import MagpyVerif.Lemmas.TrimeshInside
 import MagpyVerif.Props.C15
@@ -1081,5 +1082,91 @@ example : level1 (G := M3 Int) (V := V3 Int)
     ⟨[⟨0, 0, 0⟩], [rotZ90], indicatorField (boxBody ⟨3, 1, 1⟩) ⟨1, 0, 0⟩⟩ 0 ⟨0, 1, 0⟩ = ⟨0, 1, 0⟩ ∧
     level1 (G := M3 Int) (V := V3 Int)
     ⟨[⟨0, 0, 0⟩], [rotZ90], indicatorField (boxBody ⟨3, 1, 1⟩) ⟨1, 0, 0⟩⟩ 0 ⟨1, 0, 0⟩ = 0 := by decide
+
+end MagpyVerif.C02
+
+/-! ## added by c05wrap: the masks the wrappers compute = geometry
+
+Sphere (`sphere_j_is_indicator`), Cylinder (`cylinder_j_is_indicator`: stated for `bhjmCylinder`, the wrapper), Cuboid
+(`cuboid_j_is_indicator`: `bhjmCuboid`, open box inflated by the relative 1e-15) and Tetrahedron (`tetra_j_is_indicator`:
+`bhjmTetra`, convex hull) are wrapper-level statements already.  New: CylinderSegment. -/
+namespace MagpyVerif.C02
+open MagpyVerif MagpyVerif.Kern MagpyVerif.Kern.CylSeg
+
+/-- the masks of `BHJM_cylinder_segment` on the normalised row (lengths in units of the outer radius, angle range shifted
+into [−2π, 2π], azimuth in (−π, π]): off the tolerance band of the six surface tests — `close` (rtol = atol = 1e-12, `tolC`)
+for `r = r1`, `r = r2`, `z = z1`, `z = z2` and the modulo test `onPhi` for the two bounding half-planes — no surface mask fires and
+`mask_inside` is the open geometric segment; the observer azimuth is compared as `phi` and as `phi − sign(phi)·2π`, which covers
+every full-turn copy -/
+theorem cylseg_masks_are_geometric_off_band (μ : ℝ) (S : SegSpecial) (r phi z r1 r2 phi1 phi2 z1 z2 : ℝ)
+    (hr : 0 ≤ r) (hr1 : 0 ≤ r1) (hlo : -Real.pi < phi) (hhi : phi ≤ Real.pi)
+    (h1 : -(2 * Real.pi) ≤ phi1) (h12 : phi1 ≤ phi2) (h2 : phi2 ≤ 2 * Real.pi)
+    (br1 : tolC + tolC * |r1| < |r - r1|) (br2 : tolC + tolC * |r2| < |r - r2|)
+    (bz1 : tolC + tolC * |z1| < |z - z1|) (bz2 : tolC + tolC * |z2| < |z - z2|)
+    (bp1 : ¬ onPhi phi phi1) (bp2 : ¬ onPhi phi phi2) :
+    (@segMasks ℝ (realNumX μ S) r phi z r1 r2 phi1 phi2 z1 z2).notOnSurf = true ∧
+    ((@segMasks ℝ (realNumX μ S) r phi z r1 r2 phi1 phi2 z1 z2).inside = true ↔
+      (r1 < r ∧ r < r2) ∧ (z1 < z ∧ z < z2) ∧ ∃ k : ℤ, phi1 < phi + 2 * Real.pi * k ∧ phi + 2 * Real.pi * k < phi2) :=
+  segMasks_off_band μ S r phi z r1 r2 phi1 phi2 z1 z2 hr hr1 hlo hhi h1 h12 h2 br1 br2 bz1 bz2 bp1 bp2
+
+open Classical in
+/-- **C02 (CylinderSegment): J of `BHJM_cylinder_segment` is the polarization on the open geometric segment
+`r1 < ρ < r2 ∧ |z| < h/2 ∧ φ ∈ (φ1, φ2) mod 2π` and zero outside, for every observer off the tolerance band** — raw inputs, any
+length unit, angles in degrees with `p1 ≤ p2 ≤ p1 + 360` in ANY range (the code's shift by full turns is part of the statement).
+The band, with the code's relative tolerances explicit (`tolC = 1e-12`; lengths are measured in units of the outer radius, as
+the code does): `|ρ − r_i| / r2 > tolC·(1 + r_i / r2)`, `|z ± h/2| / r2 > tolC·(1 + h / (2 r2))`, azimuth farther than
+`tolC·(1 + 2π)` from every full-turn copy of the bounding half-planes.  Inside the band the surface masks may fire (then
+J = 0 although the point may be interior by up to 1e-12 relative) — by design of the code, covered by `cylseg_consistent`. -/
+theorem cylseg_j_is_indicator (μ : ℝ) (S : SegSpecial) (x : V3 ℝ) (r1 r2 h p1 p2 : ℝ) (pol : V3 ℝ)
+    (hr1 : 0 ≤ r1) (hr2 : 0 < r2) (hh : 0 ≤ h) (h12 : p1 ≤ p2) (h360 : p2 ≤ p1 + 360)
+    (br1 : tolC + tolC * (r1 / r2) < |Real.sqrt (x.x * x.x + x.y * x.y) / r2 - r1 / r2|)
+    (br2 : tolC + tolC * 1 < |Real.sqrt (x.x * x.x + x.y * x.y) / r2 - 1|)
+    (bz1 : tolC + tolC * (h / r2 / 2) < |x.z / r2 + h / r2 / 2|)
+    (bz2 : tolC + tolC * (h / r2 / 2) < |x.z / r2 - h / r2 / 2|)
+    (bp1 : ∀ k : ℤ, tolC * (1 + 2 * Real.pi) < |Complex.arg ⟨x.x, x.y⟩ - p1 / 180 * Real.pi - 2 * Real.pi * k|)
+    (bp2 : ∀ k : ℤ, tolC * (1 + 2 * Real.pi) < |Complex.arg ⟨x.x, x.y⟩ - p2 / 180 * Real.pi - 2 * Real.pi * k|) :
+    @bhjmCylSeg ℝ (realNumX μ S) .J x r1 r2 h p1 p2 pol =
+      some (if (r1 < Real.sqrt (x.x * x.x + x.y * x.y) ∧ Real.sqrt (x.x * x.x + x.y * x.y) < r2) ∧ |x.z| < h / 2 ∧
+          ∃ k : ℤ, p1 / 180 * Real.pi < Complex.arg ⟨x.x, x.y⟩ + 2 * Real.pi * k ∧
+            Complex.arg ⟨x.x, x.y⟩ + 2 * Real.pi * k < p2 / 180 * Real.pi
+        then pol else @zero3 ℝ (realNum μ)) :=
+  bhjmCylSeg_J_indicator μ S x r1 r2 h p1 p2 pol hr1 hr2 hh h12 h360 br1 br2 bz1 bz2 bp1 bp2
+
+/-- the azimuth hypothesis in the code's own terms: it implies that the code's modulo test fails against every full-turn copy
+of the half-plane (the copy the normalisation selects included) -/
+theorem cylseg_azimuth_band (phi P : ℝ) (hfar : ∀ k : ℤ, tolC * (1 + 2 * Real.pi) < |phi - P - 2 * Real.pi * k|) (t : ℤ) :
+    ¬ onPhi phi (P - 2 * Real.pi * t) :=
+  not_onPhi_of_far phi P hfar t
+
+-- non-vacuity: CylinderSegment(dimension=(1, 2, 2, 630, 810)) — the range is given two turns up (= −90°..90°) — observer
+-- (3/2, 0, 0) in the middle of the wall: every hypothesis holds and J = polarization
+example (μ : ℝ) (S : SegSpecial) (pol : V3 ℝ) :
+    @bhjmCylSeg ℝ (realNumX μ S) .J ⟨3 / 2, 0, 0⟩ 1 2 2 630 810 pol = some pol := by
+  have hpi3 := Real.pi_gt_three
+  have hpi4 := Real.pi_le_four
+  have hs : Real.sqrt ((3 / 2 : ℝ) * (3 / 2) + 0 * 0) = 3 / 2 := by
+    rw [mul_zero, add_zero, Real.sqrt_mul_self (by norm_num)]
+  have ha : Complex.arg ⟨(3 / 2 : ℝ), 0⟩ = 0 := by
+    have : (⟨(3 / 2 : ℝ), 0⟩ : ℂ) = ((3 / 2 : ℝ) : ℂ) := rfl
+    rw [this, Complex.arg_ofReal_of_nonneg (by norm_num)]
+  have htol : tolC * (1 + 2 * Real.pi) < 1 := by unfold tolC; nlinarith
+  -- an odd multiple of π/2 is at least π/2 away from 0
+  have far : ∀ (c : ℝ) (m : ℤ), c = Real.pi / 2 * (2 * m + 1) → tolC * (1 + 2 * Real.pi) < |c| := by
+    intro c m hc
+    rcases le_or_gt 0 m with hm | hm
+    · have : (0 : ℝ) ≤ m := by exact_mod_cast hm
+      rw [hc, abs_of_nonneg (by positivity)]
+      nlinarith
+    · have : (m : ℝ) ≤ -1 := by exact_mod_cast (by omega : m ≤ -1)
+      rw [hc, abs_of_nonpos (by nlinarith)]
+      nlinarith
+  have h := cylseg_j_is_indicator μ S ⟨3 / 2, 0, 0⟩ 1 2 2 630 810 pol (by norm_num) (by norm_num) (by norm_num)
+    (by norm_num) (by norm_num)
+    (by simp only [hs]; unfold tolC; norm_num) (by simp only [hs]; unfold tolC; norm_num)
+    (by unfold tolC; norm_num) (by unfold tolC; norm_num)
+    (by intro k; simp only [ha]; exact far _ (-2 * k - 4) (by push_cast; ring))
+    (by intro k; simp only [ha]; exact far _ (-2 * k - 5) (by push_cast; ring))
+  rw [h, if_pos]
+  refine ⟨by simp only [hs]; norm_num, by norm_num, 2, ?_, ?_⟩ <;> (simp only [ha]; push_cast; nlinarith)
 
 end MagpyVerif.C02
